@@ -161,6 +161,21 @@ pub fn run(ctx: &mut Ctx) {
                 if txs.len() != expected_tx { ctx.ev.violation("oracle", format!("free text leaked into the DSL body: {} transactions parse from the output, {} were emitted", txs.len(), expected_tx), case.clone()); }
             }
         }
+        // dividends and same-day withholding keep their totals (independent of the model)
+        {
+            let mut keys: Vec<(NaiveDate, String)> = rows.iter().filter_map(|x| match x { GRow::Dividend { d, sym, amt: Some(_), .. } => Some((*d, sym.clone())), _ => None }).collect();
+            keys.sort(); keys.dedup();
+            for (d, sym) in keys {
+                let want_div = Q::sum(rows.iter().filter_map(|x| match x { GRow::Dividend { d: dd, sym: ss, amt: Some(a), .. } if *dd == d && *ss == sym => Some(Q::from_dec(a.abs())), _ => None }).collect::<Vec<_>>().iter());
+                let want_tax = Q::sum(rows.iter().filter_map(|x| match x { GRow::Nra { d: dd, sym: Some(ss), amt: Some(a), .. } if *dd == d && *ss == sym => Some(Q::from_dec(a.abs())), _ => None }).collect::<Vec<_>>().iter());
+                let pre = format!("D:{}:{}:", ord(d), sym);
+                let got_div = Q::sum(items.iter().filter(|x| x.starts_with(&pre)).filter_map(|x| Q::parse(x.split(':').nth(3)?)).collect::<Vec<_>>().iter());
+                let got_tax = Q::sum(items.iter().filter(|x| x.starts_with(&pre)).filter_map(|x| Q::parse(x.split(':').nth(4)?)).collect::<Vec<_>>().iter());
+                if !got_div.eq(&want_div) || !got_tax.eq(&want_tax) {
+                    ctx.ev.violation("oracle", format!("{sym} on {d}: DIVIDEND lines total {} with tax {}, the export's rows total {} with withholding {}", got_div.approx(), got_tax.approx(), want_div.approx(), want_tax.approx()), case.clone());
+                }
+            }
+        }
         // model
         if let Some(m) = ctx.model.as_mut() {
             ctx.ev.traces_validated += 1;
